@@ -128,6 +128,27 @@ func sweepLenAndSum(R *vlib.Out, prop string) {
 			}
 		}
 	}
+	// float sweep: results of ordinary arithmetic need 16 or 17 significant digits (i*0.1, i/7, i*1.1, prices with
+	// an accumulated error); a hand-written fast path of the parser is wrong for some of them by one unit in the
+	// last place
+	{
+		t := &tmpl{BS: "8", BL: "9", MT: "35", CS: "10", Begin: "FIX.4.4", MsgType: "0",
+			Hdr: []*node{}, Body: []*node{{Kind: 'k', Tag: "44", Typ: "Float"}}, Trl: []*node{}}
+		i := 0
+		acc := 924.649
+		for k := 1; k <= 1500; k++ {
+			acc += 1e-13 * float64(k%7)
+			for _, f := range []float64{float64(k) * 0.1, float64(k) / 7.0, float64(k) * 1.1, acc, -float64(k) / 3.0, 1e15 + float64(k)/10, float64(k) * 1e-9 / 3} {
+				i++
+				if !vlib.Mine(i) {
+					continue
+				}
+				t.Unit = 3000000 + i
+				checkSer(R, prop, t, nil, []*pop{{Set: true, Val: ff(f), Route: 'c'}}, nil)
+			}
+		}
+		R.Bounds["float_sweep"] = "10500 values of i*0.1, i/7, i*1.1, an accumulating price, -i/3, 1e15+i/10, i*1e-9/3 (i <= 1500)"
+	}
 	R.Bounds["bodylength_sweep"] = "0..1100 payload bytes, both framing-tag sets"
 	R.Bounds["checksum_sweep"] = "one byte over all 255 non-SOH values × 3 paddings"
 }
